@@ -6,6 +6,7 @@ import Cppcms.C01.FcgiRoundtrip
 import Cppcms.C01.HttpRoundtrip
 import Cppcms.C01.StringMap
 import Cppcms.C01.HttpAgree
+import Cppcms.C01.ViewRT
 /-!
 # C01 — property theorems
 
@@ -303,6 +304,45 @@ theorem frontends_agree_http (cfg : HttpCfg) (lim : Limits) (hb : 0 < lim.bufSiz
     scgi_roundtrip lim hb _ body hws segsS hS, fcgi_roundtrip lim hb conc eps body fr hwf segsF hF, hpairs,
     head_ofEnv_http cfg q hd]
   exact ⟨rfl, rfl⟩
+
+/-- from the head to the application's view, GET: query string and cookie header written by the peer-side encoders,
+no content — the application (any of the three front-ends: `reqOutcome` is what all round trips end in) gets exactly
+those GET fields (multimap order) and cookies -/
+theorem view_roundtrip_get (lim : Limits) (h : Head) (gs : List FormField) (hgs : ∀ f ∈ gs, f.ok)
+    (cs : List CookieItem) (hcs : ∀ c ∈ cs, c.ok) (hq : h.queryString = encForm gs)
+    (hck : h.env.getSafe sHTTP_COOKIE = encCookies cs) (hcl : h.contentLength = 0) (rest : Bytes) :
+    reqOutcome lim h rest =
+      (.app (kindOf h.scriptName) false (viewOf h (gs.map FormField.meant) [] (cookiesMeant [] cs) []), rest) :=
+  Cppcms.C01.view_roundtrip_get lim h gs hgs cs hcs hq hck hcl rest
+
+/-- POST with an `application/x-www-form-urlencoded` body written by the peer-side encoder: GET fields, cookies, POST
+fields and the raw body as the peer meant them; exactly the body is consumed -/
+theorem view_roundtrip_post (lim : Limits) (h : Head) (gs : List FormField) (hgs : ∀ f ∈ gs, f.ok)
+    (cs : List CookieItem) (hcs : ∀ c ∈ cs, c.ok) (ps : List FormField) (hps : ∀ f ∈ ps, f.ok)
+    (hq : h.queryString = encForm gs) (hck : h.env.getSafe sHTTP_COOKIE = encCookies cs)
+    (hct : h.contentType = mtFormUrlencoded) (hne : encForm ps ≠ [])
+    (hcl : h.contentLength = ((encForm ps).length : Int)) (hlim : (encForm ps).length ≤ lim.contentLimit)
+    (hlim2 : (lim.contentLimit : Int) < 2 ^ 62) (hk : kindOf h.scriptName ≠ .filter) (rest : Bytes) :
+    reqOutcome lim h (encForm ps ++ rest) =
+      (.app (kindOf h.scriptName) false
+        (viewOf h (gs.map FormField.meant) (ps.map FormField.meant) (cookiesMeant [] cs) (encForm ps)), rest) :=
+  Cppcms.C01.view_roundtrip_post lim h gs hgs cs hcs ps hps hq hck hct hne hcl hlim hlim2 hk rest
+
+/-- **end to end over HTTP** (`decode (any segmentation of encHttp r fr) = ok (norm r)`): a well-formed GET request
+whose query string and `Cookie` field the peer wrote with the encoders above, header lines folded any way, cut into
+segments anywhere, on a connection that is not kept alive: the application runs once, on exactly this view. -/
+theorem http_get_end_to_end (cfg : HttpCfg) (lim : Limits) (hb : 0 < lim.bufSize) (q : HttpPeer) (hq : q.ok cfg)
+    (ls : List FLine) (hw : HttpWire q ls) (hints : List Bool) (segs : Segs) (hseg : segs.flatten = encFLines ls)
+    (gs : List FormField) (hgs : ∀ f ∈ gs, f.ok) (cs : List CookieItem) (hcs : ∀ c ∈ cs, c.ok)
+    (hquery : q.query.getD [] = encForm gs) (hck : (q.head cfg).env.getSafe sHTTP_COOKIE = encCookies cs)
+    (hcl : (q.head cfg).contentLength = 0)
+    (hclose : httpKeep (q.head cfg) (q.proto == bs Gen.http11) (hints.headD true) = false) :
+    httpRun lim cfg hints segs =
+      [.app (kindOf q.script) false (viewOf (q.head cfg) (gs.map FormField.meant) [] (cookiesMeant [] cs) [])] := by
+  have hv := Cppcms.C01.view_roundtrip_get lim (q.head cfg) gs hgs cs hcs hquery hck hcl []
+  have := http_roundtrip cfg lim hb q hq ls hw [] hints segs (by simpa using hseg) (by rw [hv, hclose]; simp)
+  rw [this, hv]
+  rfl
 
 /-- non-vacuity: `GET /s/a%2fb+c?x=1 HTTP/1.1` with `Host: h` and a folded `X-Y:` field, default configuration -/
 example : ∃ (q : HttpPeer) (ls : List FLine),
